@@ -65,6 +65,10 @@ def next_flags(op, flags):
     f = set(flags)
     if op in RESTRUCTURING:
         f.discard('heads')
+    if op in ('binarize', 'binarize_bare', 'collapse', 'uncollapse'):
+        # these create or merge nodes that carry no (or merged) split marks: raising is documented for
+        # the tree boyd_split produced, not for one rebuilt afterwards
+        f.discard('split')
     if op == 'root_attach':
         f.add('ra')
     elif op in ('negra_mark_heads', 'mark_heads_negra', 'mark_heads_ptb'):
@@ -247,6 +251,7 @@ def plan(tier, seed):
                        'unexplored successors (every path to them is an implementation trace)',
         'assumptions': ['canonical form is a sound state abstraction (DESIGN.md §3.4)',
                         'head marks count as present only if no restructuring happened since (prerequisite reading)',
+                        'raising is enabled after boyd_split until binarize/collapse/uncollapse rebuild nodes (they carry no split marks)',
                         'a tree collapsed to a bare token only admits uncollapse'],
     }
 
